@@ -95,3 +95,34 @@ package keygen
 //@   loop 2 invariant round.started && (forall k in 0..kgN(round) :: bitlen(kgNT(round.temp.kgRound1Messages[k])) == 2048)
 //@   loop 2 invariant forall k in 0..$iter :: (k != i ==> (round.save.NTildej[k] != nil && val(round.save.NTildej[k]) > 0 && bitlen(val(round.save.NTildej[k])) == 2048 && round.save.H1j[k] != nil && round.save.H2j[k] != nil))
 //@   loop 3 invariant round.started && (forall k in 0..kgN(round) :: (round.save.NTildej[k] != nil && val(round.save.NTildej[k]) > 0 && bitlen(val(round.save.NTildej[k])) <= 2100 && round.save.H1j[k] != nil && round.save.H2j[k] != nil))
+
+// ----- round_4.go: verify every peer's Paillier key proof, then emit the key data -----
+//@ func (*KGRound3Message).UnmarshalProofInts
+//@   props C06 C10
+//@   requires m != nil
+//@   requires [validated-by-ValidateBasic] len(m.PaillierProof) >= 13
+//@   ensures forall i in 0..13 :: (result[i] != nil && val(result[i]) >= 0)
+//@   loop 0 invariant forall k in 0..$iter :: (pf[k] != nil && val(pf[k]) >= 0)
+
+//@ define kg3slot(m) = (!isnil(m) && istype(msgcontent(m), "*ecdsa/keygen.KGRound3Message") && cast(msgcontent(m), "*ecdsa/keygen.KGRound3Message") != nil && len(cast(msgcontent(m), "*ecdsa/keygen.KGRound3Message").PaillierProof) >= 13)
+//@ func (*round4).Start$1
+//@   props C06 C05 C03
+//@   requires round != nil && round.round3 != nil && round.round3.round2 != nil && round.round3.round2.round1 != nil && round.round3.round2.round1.base != nil && ecKgWF(round)
+//@   requires 0 <= j && j < kgN(round) && len(PIDs) == kgN(round) && PIDs[j] != nil && Ps == round.Parameters.parties.partyIDs && ch != nil && ecdsaPub != nil && wfPoint(ecdsaPub) && round.save.PaillierPKs[j] != nil && round.save.PaillierPKs[j].N != nil
+//@   requires forall i in 0..13 :: prf[i] != nil
+//@   modifies sent(ch)
+//@   ensures sent(ch) == old(sent(ch)) + 1
+
+//@ func (*round4).Start
+//@   props C06 C05 C03
+//@   requires round != nil && round.round3 != nil && round.round3.round2 != nil && round.round3.round2.round1 != nil && round.round3.round2.round1.base != nil && ecKgWF(round)
+//@   requires [round-3-complete] forall j in 0..kgN(round) :: (j != kgI(round) ==> (kg3slot(round.temp.kgRound3Messages[j]) && round.save.PaillierPKs[j] != nil && round.save.PaillierPKs[j].N != nil))
+//@   requires [group-key-computed] round.save.ECDSAPub != nil && wfPoint(round.save.ECDSAPub)
+//@   modifies round.number, round.started, round.ok[*], sent(round.end)
+//@   ensures [C03.key-data-emitted-once-and-only-if-every-peer-proof-verified] (result == nil ==> sent(old(round.end)) == old(sent(round.end)) + 1) && (result != nil ==> sent(old(round.end)) == old(sent(round.end)))
+//@   ensures [C05.a-failing-paillier-proof-blames-peers-only] (result != nil && !old(round.started)) ==> (len(result.culprits) > 0 && (forall c in 0..len(result.culprits) :: (exists j in 0..kgN(round) :: (j != kgI(round) && result.culprits[c] == round.Parameters.parties.partyIDs[j]))))
+//@   loop 0 invariant round.started && fresh(chs) && len(chs) == kgN(round) && (forall k in 0..$iter :: (chs[k] != nil && fresh(chs[k]) && sent(chs[k]) == 0 && recvd(chs[k]) == 0)) && (forall a, b in 0..$iter :: (a != b ==> chs[a] != chs[b])) && sent(round.end) == old(sent(round.end)) && len(PIDs) == kgN(round) && (forall k in 0..len(PIDs) :: PIDs[k] != nil)
+//@   loop 1 invariant round.started && fresh(chs) && len(chs) == kgN(round) && (forall k in 0..kgN(round) :: (chs[k] != nil && fresh(chs[k]) && recvd(chs[k]) == 0)) && (forall a, b in 0..kgN(round) :: (a != b ==> chs[a] != chs[b])) && sent(round.end) == old(sent(round.end)) && len(PIDs) == kgN(round) && (forall k in 0..len(PIDs) :: PIDs[k] != nil) && Ps == round.Parameters.parties.partyIDs
+//@   loop 1 invariant forall k in 0..kgN(round) :: ((k < $iter && k != i) ==> sent(chs[k]) == 1) && ((k >= $iter || k == i) ==> sent(chs[k]) == 0)
+//@   loop 2 invariant round.started && len(chs) == kgN(round) && sent(round.end) == old(sent(round.end)) && Ps == round.Parameters.parties.partyIDs && i == kgI(round) && (forall k in 0..$iter :: (k == i ==> round.ok[k]))
+//@   loop 3 invariant round.started && fresh(culprits) && sent(round.end) == old(sent(round.end)) && Ps == round.Parameters.parties.partyIDs && i == kgI(round) && round.ok[i] && (forall c in 0..len(culprits) :: (exists j in 0..kgN(round) :: (j != i && culprits[c] == Ps[j]))) && (len(culprits) == 0 ==> (forall k in 0..$iter :: round.ok[k]))
